@@ -75,21 +75,62 @@ pub fn parse_attlist_defaults(text: &str) -> Vec<(String, String, String)> {
             None => break,
         };
         let decl = &rest[..end];
-        let mut it = decl.split_whitespace();
-        let (el, att, _ty) = match (it.next(), it.next(), it.next()) {
-            (Some(a), Some(b), Some(c)) => (a, b, c),
-            _ => continue,
-        };
-        // default value: the first quoted string of the declaration
-        if decl.contains("#IMPLIED") || decl.contains("#REQUIRED") {
+        // element name, then any number of `name type default` definitions (the generator writes CDATA types and
+        // the defaults `"v"`, `#FIXED "v"`, `#IMPLIED`, `#REQUIRED`); a value may contain white space
+        let mut toks: Vec<String> = vec![];
+        let mut cur = String::new();
+        let mut quote: Option<char> = None;
+        for c in decl.chars() {
+            match quote {
+                Some(q) => {
+                    cur.push(c);
+                    if c == q {
+                        quote = None;
+                        toks.push(std::mem::take(&mut cur));
+                    }
+                }
+                None if c == '"' || c == '\'' => {
+                    if !cur.is_empty() {
+                        toks.push(std::mem::take(&mut cur));
+                    }
+                    cur.push(c);
+                    quote = Some(c);
+                }
+                None if c.is_whitespace() => {
+                    if !cur.is_empty() {
+                        toks.push(std::mem::take(&mut cur));
+                    }
+                }
+                None => cur.push(c),
+            }
+        }
+        if !cur.is_empty() {
+            toks.push(cur);
+        }
+        if toks.is_empty() {
             continue;
         }
-        let q = decl.find(|c| c == '"' || c == '\'');
-        if let Some(q) = q {
-            let quote = decl.as_bytes()[q] as char;
-            if let Some(e) = decl[q + 1..].find(quote) {
-                out.push((el.to_string(), att.to_string(), decl[q + 1..q + 1 + e].to_string()));
+        let el = toks[0].clone();
+        let mut i = 1;
+        while i + 2 < toks.len() + 0 && i + 1 < toks.len() {
+            let att = toks[i].clone();
+            // toks[i + 1] is the type
+            let mut j = i + 2;
+            if j >= toks.len() {
+                break;
             }
+            if toks[j] == "#IMPLIED" || toks[j] == "#REQUIRED" {
+                i = j + 1;
+                continue;
+            }
+            if toks[j] == "#FIXED" {
+                j += 1;
+            }
+            if j < toks.len() && toks[j].len() >= 2 && (toks[j].starts_with('"') || toks[j].starts_with('\'')) {
+                let v = &toks[j][1..toks[j].len() - 1];
+                out.push((el.clone(), att, v.to_string()));
+            }
+            i = j + 1;
         }
     }
     out
@@ -1871,6 +1912,15 @@ impl World {
                         "context-reuse",
                         format!("query {:?}: re-used context gives {:?}, fresh context gives {:?}", expr, shared, fv),
                     ));
+                    // the caller's own query on the edited document is the left-hand side of C14 as well: a node-set
+                    // that depends on what the context saw before the edits cannot equal the re-parsed copy's
+                    if self.model.gen > 0 && matches!((&shared, &fv), (QVal::Nodes(_), QVal::Nodes(_))) {
+                        fails.push(Fail::new(
+                            "C14",
+                            "held-context-after-edit",
+                            format!("query {:?} after {} successful edits: the caller's context gives {:?}, a fresh context {:?}", expr, self.model.gen, shared, fv),
+                        ));
+                    }
                 }
                 // and once more on the shared context: a query may not change the answer of a later one
                 // (done by the scheduler issuing further queries)
